@@ -50,6 +50,11 @@ def main():
         rc0, o0 = sh(["/venv/bin/python", "-W", "ignore", os.path.abspath(a.demo)], cwd=wt, env=env)
         meta["demo_clean_exit"] = rc0
         rc, o = sh(["git", "apply", os.path.abspath(a.patch)], cwd=wt)
+        if rc:       # the tree moved on since the change was written (fix commits): apply with context fuzz
+            rc2, o2 = sh("patch -p1 -F3 --no-backup-if-mismatch < %s" % os.path.abspath(a.patch), cwd=wt)
+            if rc2 == 0:
+                rc, o = 0, o2
+                meta["patch_rebased_with_fuzz"] = True
         if rc:
             print("patch does not apply:", o)
             meta["patch_applies"] = False
